@@ -1228,7 +1228,11 @@ class FnKinds:
         elif init_s is not None and init_s.get("k") == "Assign" and strip(init_s["lhs"]).get("d") == d:
             start = init_s["rhs"]
         elif init_s is None:
-            start = None
+            # `T v(init); ...; for(; v < E; ++v)`: the declaration is the init statement when it belongs to the same iteration of the enclosing
+            # loop (same loop depth) and the header increment is the only mutation of v
+            if vdecl.get("init") is not None and not vdecl.get("param") and \
+                    self.decl_depth.get(d, -1) == sum(1 for fr in self.frames if fr.kind == "loop"):
+                start = vdecl["init"]
         if start is None:
             return None
         step = None
@@ -1389,9 +1393,16 @@ class FnKinds:
             return
         k = s.get("k")
         if k == "Block":
-            prev = []
-            for x in s.get("s", []):
-                self.stmt(x)
+            lst = s.get("s", [])
+            i = 0
+            while i < len(lst):
+                grp = self._enum_if_sequence(lst, i)
+                if grp is not None:
+                    self._switch_chain(lst[i], grp[0], None)
+                    i = grp[1]
+                    continue
+                self.stmt(lst[i])
+                i += 1
             return
         if k == "Decl":
             for v in s.get("vars", []):
@@ -1681,6 +1692,47 @@ class FnKinds:
         lp.canon = "range(%r,%r)" % (lo_s, self.norm(hi_eff))
         return lp
 
+    def _while_as_for(self, w):
+        """`while(c) { body; ++a; ++b; }` without `continue` is `for(; c; ++a, ++b) { body }`: returned as a synthetic For node when the for-loop
+        normaliser recognises that header as an iterator / segment / counted loop with static bounds (otherwise None: generic while)"""
+        if w.get("k") != "While":
+            return None
+        body = w.get("body")
+        if body is None or body.get("k") != "Block" or not body.get("s"):
+            return None
+        stmts = list(body["s"])
+        incs = []
+        while stmts:
+            t = _is_incdec(stmts[-1])
+            if t is None or t[0].get("k") != "Ref" or t[0].get("dk") != "local":
+                break
+            incs.insert(0, stmts.pop())
+        if not incs:
+            return None
+
+        def has_continue(n):
+            if n.get("k") == "Continue":
+                return True
+            if n.get("k") in ("For", "While", "Do", "ForRange", "Lambda"):
+                return False
+            return any(has_continue(c) for c in children(n))
+        if any(has_continue(x) for x in stmts):
+            return None
+        inc = incs[0]
+        for x in incs[1:]:
+            inc = {"k": "Bin", "op": ",", "lhs": inc, "rhs": x, "l": x.get("l")}
+        f = {"k": "For", "i": w.get("i"), "l": w.get("l"), "init": None, "c": w.get("c"), "inc": inc,
+             "body": {"k": "Block", "i": body.get("i"), "l": body.get("l"), "s": stmts}, "from_while": w}
+        try:
+            lp = self.norm_for(f, None)
+        except Exception:
+            return None
+        if lp is None:
+            return None
+        if lp.kind in ("adj", "seg") or (lp.kind in ("range", "down") and getattr(lp, "hi", None) is not None):
+            return f
+        return None
+
     def while_(self, w):
         lp0 = self._counted_while(w)
         if lp0 is not None:
@@ -1692,6 +1744,10 @@ class FnKinds:
             self.frames.pop()
             self.loopvars.pop(lp0.var, None)
             self.ev("loop-end", w, loop=lp0)
+            return
+        f0 = self._while_as_for(w)
+        if f0 is not None:
+            self.for_(f0)
             return
         c = w.get("c")
         depth = sum(1 for fr in self.frames if fr.kind == "loop")
@@ -1714,7 +1770,120 @@ class FnKinds:
         self.frames.pop()
         self.ev("loop-end", w, loop=lp)
 
+    # ---- if-chains over one enumeration variable are the decision table a switch is ----------------------
+    def _enum_labels(self, c):
+        """(variable key, [labels]) for `x == E`, `E == x`, `x == E1 || x == E2` with x a parameter / local / member and E enumerators"""
+        c = strip(c)
+        if c is None:
+            return None
+        if c.get("k") == "Bin" and c.get("op") == "||":
+            a, b = self._enum_labels(c["lhs"]), self._enum_labels(c["rhs"])
+            if a is None or b is None or a[0] != b[0]:
+                return None
+            return a[0], a[1] + b[1]
+        if c.get("k") == "Bin" and c.get("op") == "==":
+            l, r = strip(c["lhs"]), strip(c["rhs"])
+            for x, e in ((l, r), (r, l)):
+                if e.get("k") == "Ref" and e.get("dk") == "enum" and x.get("k") in ("Ref", "Member") and x.get("dk") != "enum":
+                    key = ("d", x.get("d")) if x.get("k") == "Ref" else ("m", self.okey(x))
+                    return key, [self.canon(e)]
+        return None
+
+    @staticmethod
+    def _single(stmt):
+        """the statement inside `{ stmt }`"""
+        while stmt is not None and stmt.get("k") == "Block" and len(stmt.get("s", [])) == 1:
+            stmt = stmt["s"][0]
+        return stmt
+
+    def _enum_chain(self, s):
+        """[(labels, then statement, if node)], final else statement for `if(x==A) .. else if(x==B) .. else ..` with at least two arms"""
+        arms = []
+        node = s
+        var = None
+        final = None
+        while node is not None and node.get("k") == "If" and not node.get("constexpr"):
+            el = self._enum_labels(node.get("c"))
+            if el is None or (var is not None and el[0] != var):
+                break
+            var = el[0]
+            arms.append((el[1], node.get("then"), node))
+            nxt = self._single(node.get("else"))
+            if nxt is not None and nxt.get("k") == "If" and self._enum_labels(nxt.get("c")) is not None and self._enum_labels(nxt.get("c"))[0] == var:
+                node = nxt
+                continue
+            final = node.get("else")
+            node = None
+        if len(arms) < 2:
+            return None
+        return arms, final
+
+    @staticmethod
+    def _leaves_fn(stmt):
+        if stmt is None:
+            return False
+        k = stmt.get("k")
+        if k in ("Return", "Throw"):
+            return True
+        if k in ("Call", "MCall") and stmt.get("noreturn"):
+            return True
+        if k == "Block":
+            return any(FnKinds._leaves_fn(x) for x in stmt.get("s", []))
+        if k == "If":
+            return stmt.get("else") is not None and FnKinds._leaves_fn(stmt.get("then")) and FnKinds._leaves_fn(stmt.get("else"))
+        return False
+
+    def _enum_if_sequence(self, lst, i):
+        """consecutive `if(x == A) { ...; return; }  if(x == B) { ... }` statements of a block (every arm but the last leaves the function):
+        the same decision table.  -> ([(labels, then, node)], index behind the sequence) or None"""
+        arms = []
+        var = None
+        j = i
+        while j < len(lst):
+            n = lst[j]
+            if n.get("k") != "If" or n.get("else") is not None or n.get("constexpr"):
+                break
+            el = self._enum_labels(n.get("c"))
+            if el is None or (var is not None and el[0] != var):
+                break
+            var = el[0]
+            arms.append((el[1], n.get("then"), n))
+            j += 1
+            if not self._leaves_fn(n.get("then")):
+                break
+        if len(arms) < 2:
+            return None
+        return arms, j
+
+    def _switch_chain(self, s, arms, final):
+        for labels, then, node in arms:
+            self.expr(node.get("c"))
+        self.ev("switch", s, cond=strip(arms[0][2].get("c")), chain=True)
+        self.cond_depth += 1
+        for labels, then, node in arms:
+            fr = Frame("case", "|".join(labels), node)
+            fr.labels = labels
+            self.frames.append(fr)
+            self.ev("case", node, labels=labels)
+            self.stmt(then)
+            self.frames.pop()
+        if final is not None:
+            fr = Frame("case", "default", final)
+            fr.labels = ["default"]
+            self.frames.append(fr)
+            self.ev("case", final, labels=["default"])
+            self.stmt(final)
+            self.frames.pop()
+        self.cond_depth -= 1
+        for k, a in self.arrs.items():
+            if getattr(a, "alloc_cond_depth", 0) > self.cond_depth:
+                a.cond = True
+
     def if_(self, s):
+        ch = self._enum_chain(s)
+        if ch is not None:
+            self._switch_chain(s, ch[0], ch[1])
+            return
         c = s.get("c")
         self.expr(c)
         cc = self.canon(c)
